@@ -730,7 +730,21 @@ def mask_select_nd(a, mask):
 def mask_select_axis0(a, mask, rest=()):
     e = cur()
     mf = mask.snapshot_fn()
-    info = CompressInfo(e, lambda i: mf((i,)), a.shape[0], "m%d" % next(_ids))
+    # D6 is functional: the same array selected by a pointwise-equal mask gives the same result, so an existing
+    # CompressInfo is reused when the masks are provably equal (lets contract text name "the filtered diagram")
+    info = None
+    reg = e.ghost.setdefault("__compress", [])
+    for (a2, w2, mf2, info2) in reg:
+        if a2 is a and w2 == a.buf.writes:
+            i = Num(z3.Int(e.uniq("meq")))
+            rng = z3.And(i.t >= 0, i.t < to_z3(a.shape[0]))
+            same = e.under(rng, lambda: e.must(zb(mf((i,))) == zb(mf2((i,)))))
+            if same:
+                info = info2
+                break
+    if info is None:
+        info = CompressInfo(e, lambda i: mf((i,)), a.shape[0], "m%d" % next(_ids))
+        reg.append((a, a.buf.writes, mf, info))
     f = a.snapshot_fn()
 
     def fn(idx):
